@@ -286,6 +286,7 @@ static ssize_t watched_write(int kind, int fd, int widx, const void *buf, size_t
         log_rec(K_FAULT, seq0, fd, widx, pos, n, ret, 0, mode, NULL, 0);
         die();
     }
+    if (mode == M_SHORT) log_rec(K_FAULT, seq0, fd, widx, pos, n, ret, 0, mode, NULL, 0);
     if (ret < 0) errno = err;
     return ret;
 }
